@@ -13,7 +13,7 @@ def run(rep, tier, seed, rng):
             distinct.add(json.dumps(c, sort_keys=True))
         if r["tags"] & {"crash", "rc", "predicted-panic"}:
             ndis += 1
-            rep.violation("model and implementation disagree: " + "; ".join(r["dis"])[:400], gen_common.replay_data(r), found_input=False)
+            rep.violation("model and implementation disagree: " + "; ".join(r["dis"])[:400], gen_common.replay_data(r), found_input=("crash" in r["tags"]))
             continue
         if r["impl_parsed"] and r["model_parsed"]:
             li, lm = mc.link_sources(r["impl_parsed"]), mc.link_sources(r["model_parsed"])
